@@ -80,7 +80,9 @@ package hap
 //@   modifies *s
 //@ invoke "github.com/brutella/hc/hap.Session.Connection"(s) (c)
 //@   pure
+// a subscription is only ever recorded for a characteristic that permits events (C11); callers must have checked
 //@ invoke "github.com/brutella/hc/hap.Session.Subscribe"(s, c)
+//@   requires evperm: c != nil && hasPerm(c.Perms, "ev")
 //@   modifies subs(s, c)
 //@   ensures subs(s, c)
 //@ invoke "github.com/brutella/hc/hap.Session.Unsubscribe"(s, c)
